@@ -15,17 +15,18 @@ enum S {
     Cond(Box<S>, Box<S>, Box<S>),
 }
 
-const KINDS: [&str; 5] = ["div0", "overflow", "nokey", "undeclared", "boom"];
+const KINDS: [&str; 6] = ["div0", "overflow", "nokey", "undeclared", "boom", "nofn"];
 
 fn leaf_src(kind: char, id: i64) -> String {
     match kind {
         'T' => format!("T({})", id),
         'F' => format!("F({})", id),
-        _ => match KINDS[(id as usize) % 5] {
+        _ => match KINDS[(id as usize) % 6] {
             "div0" => format!("({} / 0 > 0)", 1000 + id),
             "overflow" => format!("(9223372036854775807 + {} > 0)", 1000 + id),
             "nokey" => format!("{{'a': true}}.k{}", 1000 + id),
             "undeclared" => format!("nope{}", 1000 + id),
+            "nofn" => format!("nofn{}(true)", 1000 + id),
             _ => format!("boom({})", id),
         },
     }
@@ -162,7 +163,7 @@ fn signature(e: &ExecutionError) -> Option<i64> {
         ExecutionError::DivisionByZero(Value::Int(i)) => Some(*i - 1000),
         ExecutionError::IntegerOverflow(_, _, Value::Int(i)) => Some(*i - 1000),
         ExecutionError::NoSuchKey(k) => k.strip_prefix('k').and_then(|d| d.parse::<i64>().ok()).map(|v| v - 1000),
-        ExecutionError::UndeclaredReference(n) => n.strip_prefix("nope").and_then(|d| d.parse::<i64>().ok()).map(|v| v - 1000),
+        ExecutionError::UndeclaredReference(n) => n.strip_prefix("nope").or_else(|| n.strip_prefix("nofn")).and_then(|d| d.parse::<i64>().ok()).map(|v| v - 1000),
         _ => None,
     }
 }
